@@ -498,3 +498,38 @@ def rowDistB (slack : Rat) (row : List XRat) : Bool :=
    | _ => false)
 
 end AITB.MS
+
+/-! ## Factored::MDP::CooperativeModel constructor (src/Factored/MDP/CooperativeModel.cpp): everything it validates -/
+namespace AITB.MS
+
+/-- a transition matrix with its dimensions (a zero-row matrix still has a column count) -/
+structure Mat where
+  rows : Nat
+  cols : Nat
+  ent : Tab2
+  deriving Repr, Inhabited
+
+/-- a reward basis: state tag, action tag, shape of its value matrix -/
+structure Basis where
+  tag : List Nat
+  actionTag : List Nat
+  rows : Nat
+  cols : Nat
+  deriving Repr, Inhabited
+
+/-- does the constructor accept?  (every failing test throws std::invalid_argument; the order only matters for
+    which message is shown) -/
+def coopAccepts (checksDiscount : Bool) (g : Graph) (mats : List Mat) (bases : List Basis) (d : XRat) : Bool :=
+  !(checksDiscount && (discGuard .dense).eval d) &&
+  g.S.length != 0 && g.A.length != 0 &&
+  g.parents.length == g.S.length &&
+  mats.length == g.S.length &&
+  (List.range g.S.length).all (fun i =>
+      let m := mats.getD i default
+      m.rows == g.sizes.getD i 0 && m.cols == g.S.getD i 0 &&
+      (List.range m.rows).all (fun j => isProbLoop ((List.range m.cols).map (fun x => get2 m.ent j x)))) &&
+  bases.all (fun b =>
+      checkTag g.A b.actionTag == .none && checkTag g.S b.tag == .none &&
+      b.cols == spacePartial g.A b.actionTag && b.rows == spacePartial g.S b.tag)
+
+end AITB.MS
